@@ -111,10 +111,17 @@ func runDeleteRange(r *vrep.Report, u *uni.Universe, c *uni.ClientStore, strict 
 	}
 	var mu sync.Mutex
 	budget := cs.Splits
-	var splits, faults atomic.Int64
+	var splits, faults, nReq atomic.Int64
+	var runaway atomic.Bool
+	bound := int64(300 + 30*(cs.Regions+cs.Splits))
 	c.Net.SetDecider(func(call *uni.Call) uni.Action {
 		if call.Cmd != tikvrpc.CmdDeleteRange {
 			return uni.Action{}
+		}
+		// logical progress bound: one request per region of the range, plus retries after (budgeted) faults and splits
+		if nReq.Add(1) > bound {
+			runaway.Store(true)
+			return uni.Action{Kind: uni.KillBefore}
 		}
 		mu.Lock()
 		defer mu.Unlock()
@@ -192,6 +199,10 @@ func runDeleteRange(r *vrep.Report, u *uni.Universe, c *uni.ClientStore, strict 
 	if strict != nil && strict.delRejects.Load() > rejBefore {
 		// region id and epoch of the request were current, yet its range is not inside that region
 		r.Violate("deleterange:request-leaves-its-region", fmt.Sprintf("%s: %d DeleteRange requests addressed a region (current epoch) with a range that is not inside it", cs, strict.delRejects.Load()-rejBefore), detail)
+	}
+	if runaway.Load() {
+		r.Inconc("%s: the task sent more than %d DeleteRange requests for a range over at most %d regions without finishing; its client was stopped", cs, bound, cs.Regions+cs.Splits)
+		return false
 	}
 	r.Eval(1)
 	r.Count("runs", 1)
